@@ -67,7 +67,7 @@ open Rd Sh
 abbrev V3 := Var 3 (fun _ => Nat)
 
 inductive Outcome where
-  | ret (d : Nat) | throwCaught (d : Nat) | throwOther
+  | ret (d : Nat) | throwCaught (d : Nat) | throwDerived (d : Nat) | throwOther
 
 instance : Rd Nat := ⟨fun
   | c :: r => if c = '0' ∨ c = '1' ∨ c = '2' then some (c.toNat - 48, r) else none
@@ -113,6 +113,7 @@ instance : Rd Bool := ⟨fun
 instance : Rd Outcome := ⟨fun
   | 'R' :: r => (rd (α := Nat) r).map fun (x, r') => (.ret x, r')
   | 'X' :: r => (rd (α := Nat) r).map fun (x, r') => (.throwCaught x, r')
+  | 'Z' :: r => (rd (α := Nat) r).map fun (x, r') => (.throwDerived x, r')
   | 'Y' :: r => some (.throwOther, r)
   | _ => none⟩
 
@@ -221,11 +222,15 @@ def outcomeThunk (o : Outcome) : Unit → KD Nat := fun _ => do
   match o with
   | .ret d => pure d
   | .throwCaught d => K.fault (.exception (.other ("E1:" ++ toString d)))
+  | .throwDerived d => K.fault (.exception (.other ("E1d:" ++ toString d)))
   | .throwOther => K.fault (.exception (.other "E2"))
 
 /-- which exception kinds `try_call<E1>` catches -/
 def catchesE1 : ExcKind → Option Nat
-  | .other s => if s.startsWith "E1:" then (s.drop 3).toString.toNat? else none
+  | .other s =>
+    if s.startsWith "E1:" then (s.drop 3).toString.toNat?
+    else if s.startsWith "E1d:" then (s.drop 4).toString.toNat?   -- derived from E1: caught by `E1 const &`
+    else none
   | _ => none
 
 def natEq (a b : Nat) : Bool := a == b
@@ -592,6 +597,28 @@ def handle1 (toks : List String) : Option String :=
       pure (match r with
         | none => "N"
         | some (i, ty) => s!"J{i}:{ty}=obj"))
+  -- constructors ------------------------------------------------------------------------------
+  | ["o.ctor", c, v] => do
+    cat? c; let v ← tok Nat v
+    pure (run1 (pure (some v)))
+  | ["e.ctor", c, k, v] => do
+    cat? c; let v ← tok Nat v
+    if k = "S" then pure (run1 (pure (Either.success v : Either Nat Nat)))
+    else if k = "F" then pure (run1 (pure (Either.failure v : Either Nat Nat)))
+    else none
+  | ["v.ctor", c, v] => do
+    cat? c; let v ← tok V3 v
+    pure (run1 (pure v))
+  | ["o.to_exc_ref", c, o] => do
+    catLC? c; let o ← tok (Option Nat) o
+    pure (run1 do
+      let x ← Opt.toException o (fun _ => do lg "m" []; pure (.other "E2"))
+      pure s!"in:{x}")
+  | ["e.to_exc_ref", c, e] => do
+    catLC? c; let e ← tok (Either Nat Nat) e
+    pure (run1 do
+      let x ← Either.toException e (fun f => do lg "m" [f]; pure (.other s!"E1:{f}"))
+      pure s!"in:{x}")
   -- monad ------------------------------------------------------------------------------------
   | ["m.chain2.o", c, o, f, g] => do
     cat? c; let o ← tok (Option Nat) o; let f ← tbl (Option Nat) 3 f; let g ← tbl (Option Nat) 3 g
@@ -624,6 +651,7 @@ def handle (toks : List String) : String :=
   match toks with
   | "all9" :: rest =>
     if rest.count "*" ≠ 1 then "bad-op"
+    else if (handle1 (rest.map fun x => if x = "*" then "000000000" else x)).isNone then "bad-op"
     else
       let h := (List.range (3 ^ 9)).foldl (fun h i =>
         let t := table9 i
